@@ -72,7 +72,12 @@ let model () =
                 | ONewVar, _ -> string_of_int nv
                 | _, RTrue -> "1" | _, RFalse -> "0" | _, ROutOfFuel -> "fuel" in
               dump s1 rc; stq := clear_log s1;
-              if q_dead_after o s1 r then dead := true
+              if q_dead_after o s1 r then dead := true;
+              (* check(): also definitely inconsistent when the call ended with a theory conflict reported at root level (the most
+                 recent hook is the conflict: nothing was learnt from it) - same rule as harness/h_sat.cpp *)
+              (match o, r, s1.trail_lim, s1.log with
+               | OCheck _, RFalse, [], (k, _) :: _ when int_of_nat k = 3 -> dead := true
+               | _ -> ())
             end else dump !stq "skip"
           end else begin
             if (not !dead) && p_pre !stp o then begin
